@@ -96,7 +96,7 @@ class Marker:
 
 
 class ModelEval(Evaluator):
-    MAX_DEPTH = 12
+    MAX_DEPTH = 24
 
     def __init__(self, tree, fi, env=None, hooks=None, depth=0, shared=None):
         super().__init__(env if env is not None else {})
@@ -456,7 +456,8 @@ class ModelEval(Evaluator):
                         acc = self.call(node, args[0], [acc, x], {})
                     return acc
                 if h is None and func.data[0] in ("copy.copy", "copy.deepcopy") and len(args) >= 1:
-                    return self.py_copy(args[0], deep=func.data[0] == "copy.deepcopy", node=node)
+                    return self.py_copy(args[0], deep=func.data[0] == "copy.deepcopy", node=node,
+                                        memo=(args[1] if len(args) > 1 and isinstance(args[1], dict) else kwargs.get("memo") if isinstance(kwargs.get("memo"), dict) else None))
                 if h is None:
                     d = self.hooks.get("ext_default")
                     if d is not None:
@@ -595,7 +596,10 @@ class ModelEval(Evaluator):
         if isinstance(v, PyObj):
             m = self.tree.method(v._cls, "__deepcopy__" if deep else "__copy__")
             if m is not None:
-                return self.invoke(m, [v] + ([{}] if deep else []), {}, node)
+                # the running memo is handed to __deepcopy__ (it may register itself and pass it on), and the result is remembered as copy.deepcopy does
+                res = self.invoke(m, [v] + ([memo] if deep else []), {}, node)
+                memo.setdefault(id(v), res)
+                return res
             out = PyObj(v._cls)
             memo[id(v)] = out
             out._attrs.update({k: (self.py_copy(x, True, node, memo) if deep else x) for k, x in v._attrs.items()})
